@@ -199,6 +199,35 @@ def completion(draw, cid, conf, script, rkinds, pwweights):
     return out
 
 
+def phased_script(draw, cid, conf, rkinds, pww):
+    """A client that goes through the whole conversation in phases - all data (with an optional
+    password somewhere in between), a round of replies, then one to three further rounds of
+    password / challenge response + replies, with a timeout possible between rounds.  Reaches the
+    deep hold-accounting states (re-login, second stamp, MORE answered twice, +! toggled) densely."""
+    names = [s[0] for s in conf["services"]]
+    sc = [["C", cid, draw(st.sampled_from(IPS)), draw(st.integers(1, 65535))]]
+    data = [draw(st.sampled_from([["N", cid, "host.example.org"], ["d", cid]])), ["u", cid, draw(ident_s)], ["n", cid, draw(nick_s)],
+            ["U", cid, draw(user_s), draw(real_s)]]
+    if draw(st.integers(0, 2)) > 0:
+        data.append(["P", cid, draw(password_s((9, 1) + tuple(pww[2:])))])
+    sc.extend(draw(st.permutations(data)))
+    for rnd in range(draw(st.integers(1, 4))):
+        if rnd > 0:
+            if draw(st.integers(0, 5)) == 0:
+                sc.append(["!", cid])
+            sc.append(["P", cid, draw(password_s((9, 1) + tuple(pww[2:])))])
+        for s_ in draw(st.permutations(names)):
+            k = draw(st.integers(0, 9))
+            if k == 0:
+                continue                      # this service stays silent in this round
+            sc.append(["X", cid, s_, draw(reply_s(rkinds)), "cur"])
+            if k == 1:
+                sc.append(["X", cid, s_, draw(reply_s(rkinds)), "cur"])   # duplicate answer
+        if draw(st.integers(0, 7)) == 0:
+            sc.append(draw(st.sampled_from([["H", cid], ["!", cid], ["n", cid, "Nick2"], ["u", cid]])))
+    return sc
+
+
 @st.composite
 def history_s(draw, pid, tier, conf=None, max_clients=None, distinct_ids=False, maxlen=None):
     prof = PROFILES.get(pid, PROFILES["default"])
@@ -220,6 +249,9 @@ def history_s(draw, pid, tier, conf=None, max_clients=None, distinct_ids=False, 
         ids = [draw(st.sampled_from(pool)) for _ in range(nscripts)]
     scripts = []
     for cid in ids:
+        if draw(st.integers(0, 3)) == 0:
+            scripts.append(phased_script(draw, cid, conf, rkinds, pww))
+            continue
         sc = [["C", cid, draw(st.sampled_from(IPS)), draw(st.integers(1, 65535))]]
         n = draw(st.integers(0, maxlen or (18 if big else 12)))
         for _ in range(n):
